@@ -306,7 +306,7 @@ Definition s4_scenario : scenario :=
   {| sc_cfg := s4_cfg; sc_timeout := 0; sc_sig := SLogs; sc_payload := [1]; sc_deadline := None; sc_cancel := None;
      sc_stop := Some 5; sc_draws := []; sc_tie := fun _ => [WTimer] |}.
 Definition s4_script : list attempt :=
-  [ {| a_dur := 10; a_res := RErr EBase |}; {| a_dur := 10; a_res := ROk |} ].
+  [ {| a_dur := 10; a_res := RErr EBase; a_ignores_ctx := false |}; {| a_dur := 10; a_res := ROk; a_ignores_ctx := false |} ].
 
 Lemma s4_valid : valid_config s4_cfg.
 Proof. unfold valid_config. vm_compute. repeat split; reflexivity. Qed.
@@ -415,10 +415,47 @@ Qed.
 
 (* ---- a context expiry is a transient outcome --------------------------------------------------------------------- *)
 Lemma context_expiry_is_transient_l sc s a c :
-  att_done sc s = Some c -> c < s + a_dur a ->
+  a_ignores_ctx a = false -> att_done sc s = Some c -> c < s + a_dur a ->
   effective sc s a = (Z.max c s, RErr EBase) /\ is_permanent EBase = false /\ throttle_of EBase = None /\
   (forall sg, partial_of sg EBase = None) /\ is_shutdown EBase = false.
 Proof.
-  intros D L. unfold effective. rewrite D. destruct (c <? s + a_dur a) eqn:E; [|lia].
+  intros I D L. unfold effective. rewrite I, D. destruct (c <? s + a_dur a) eqn:E; [|lia].
   repeat split; reflexivity.
 Qed.
+
+(* ---- timeoutSender.Send hands the exporter's answer back unchanged, however late ---------------------------------- *)
+Lemma late_answer_is_the_answer_l sc s a :
+  a_ignores_ctx a = true -> effective sc s a = (s + a_dur a, a_res a).
+Proof. intros I. unfold effective. rewrite I. reflexivity. Qed.
+
+Lemma answer_in_time_is_the_answer_l sc s a :
+  (forall c, att_done sc s = Some c -> s + a_dur a <= c) -> effective sc s a = (s + a_dur a, a_res a).
+Proof.
+  intros H. unfold effective. destruct (a_ignores_ctx a); [reflexivity|].
+  destruct (att_done sc s) as [c|]; [|reflexivity]. specialize (H c eq_refl).
+  destruct (c <? s + a_dur a) eqn:E; [lia|reflexivity].
+Qed.
+
+Lemma step_is_scripted sc script k st :
+  nth_error (steps_of sc script) k = Some st ->
+  exists a, nth_error script k = Some a /\ (s_end st, s_res st) = effective sc (s_start st) a.
+Proof.
+  intros H. destruct (run_nth _ _ _ _ H) as (now & pl & cur & a & Ha & ->). exists a. split; [exact Ha|].
+  unfold do_step; simpl. destruct (effective sc now a); reflexivity.
+Qed.
+
+(* a success or a permanent error that arrives AFTER the attempt's context ended (per-attempt timeout, deadline,
+   cancellation) from a backend that ignores cancellation is still the verdict: nothing follows it *)
+Lemma late_verdict_is_final_l sc script k st a :
+  nth_error (steps_of sc script) k = Some st -> nth_error script k = Some a -> a_ignores_ctx a = true ->
+  (a_res a = ROk \/ exists ch, a_res a = RErr ch /\ is_permanent ch = true) ->
+  s_res st = a_res a /\ s_end st = s_start st + a_dur a /\
+  length (steps_of sc script) = S k /\ nth_error (steps_of sc script) (S k) = None.
+Proof.
+  intros H Ha I Hv. destruct (step_is_scripted _ _ _ _ H) as (a' & Ha' & E).
+  rewrite Ha in Ha'. inversion Ha'; subst a'. rewrite (late_answer_is_the_answer_l _ _ _ I) in E.
+  inversion E as [[E1 E2]]. split; [reflexivity|]. split; [reflexivity|].
+  assert (Hv' : s_res st = ROk \/ exists ch, s_res st = RErr ch /\ is_permanent ch = true) by (rewrite E2; exact Hv).
+  destruct (no_attempt_after_verdict_l _ _ _ _ H Hv') as (L & N & _). split; assumption.
+Qed.
+
